@@ -142,18 +142,27 @@ def run(fx, it, writer, matrix, size, args=(), kw=None, typed=None, extra=None):
     over.update(extra or {})
     genv = callable_env(fx.forest, 'writers', it, over)
     fn = fx.fn('writers', writer)
-    f = FuncVal(fn, genv, it)
-    if any(src_name(d) == 'colorful' for d in fn.decorator_list):
-        deco = fn.decorator_list[0]
-        from .. import ev
-        dkw = {k.arg: ev.ev(k.value, genv) for k in deco.keywords}
-        opts = dict(kw or {})
-        colour_kw = {k: opts.pop(k) for k in list(opts) if k in COLOUR_KEYS}
-        cm = genv['_make_colormap'](size[0], size[1], **{**dkw, **colour_kw})
-        rec.colormap = dict(cm)
-        f(matrix, size, '<out>', cm, *args, **opts)
-    else:
-        f(matrix, size, '<out>', *args, **(kw or {}))
+    import ast
+    from .. import ev
+    cur = FuncVal(fn, genv, it)
+    # the decorators are applied as the module applies them, innermost first: `colorful` is modelled (colour keywords -> colour map),
+    # a wrapper-returning decorator of the module itself is interpreted, anything else is outside what this harness can read
+    for d in reversed(fn.decorator_list):
+        if src_name(d) == 'colorful' and isinstance(d, ast.Call):
+            dkw = {k.arg: ev.ev(k.value, genv) for k in d.keywords}
+
+            def cur(matrix_, size_, out_, *a, _inner=cur, _dkw=dkw, **opts):
+                colour_kw = {k: opts.pop(k) for k in list(opts) if k in COLOUR_KEYS}
+                cm = genv['_make_colormap'](size_[0], size_[1], **{**_dkw, **colour_kw})
+                rec.colormap = dict(cm)
+                return _inner(matrix_, size_, out_, cm, *a, **opts)
+        elif isinstance(d, ast.Name) and isinstance(genv.get(d.id), FuncVal):
+            cur = genv[d.id](cur)
+            if not callable(cur):
+                raise Unknown(f'decorator {d.id} of writers.{writer} does not return a function')
+        else:
+            raise Unknown(f'decorator `{ast.unparse(d)[:40]}` of writers.{writer}: not a decorator of the module this harness can apply')
+    cur(matrix, size, '<out>', *args, **(kw or {}))
     return rec, rs, zs
 
 
